@@ -16,12 +16,13 @@ import (
 func init() { register("C02", runC02) }
 
 type c02Env struct {
-	r    *Run
-	abs  *AbsCtx
-	rsp  *Responder
-	ca   *CA
-	sib  *CA // same subject name and SKI as ca, other key
-	vals map[string]*Validator
+	r      *Run
+	abs    *AbsCtx
+	rsp    *Responder
+	ca     *CA
+	sib    *CA // same subject name and SKI as ca, other key
+	forger *CA // an end-entity certificate issued by ca without any extended key usage
+	vals   map[string]*Validator
 }
 
 func c02Validator(strict bool, cacheDur string) *Validator {
@@ -30,7 +31,7 @@ func c02Validator(strict bool, cacheDur string) *Validator {
 	return v
 }
 
-var c02Behaviours = []string{"good", "revoked", "unknown", "http500", "garbage", "wrong", "refused"}
+var c02Behaviours = []string{"good", "revoked", "unknown", "http500", "garbage", "wrong", "refused", "forged"}
 
 // c02Script installs behaviour b for path on the responder; returns the model behaviour and whether requests are observable.
 func (e *c02Env) script(path, b string, leaf *x509.Certificate, known []*x509.Certificate, rng interface {
@@ -56,6 +57,12 @@ func (e *c02Env) script(path, b string, leaf *x509.Certificate, known []*x509.Ce
 		body := e.ca.OCSPResponse(OCSPOpts{Status: ocsp.Revoked, Serial: new(big.Int).Add(leaf.SerialNumber, big.NewInt(1))})
 		e.rsp.SetFixed(path, RespScript{Kind: "bytes", Body: body})
 		return e.abs.Abstract(body, known), true, ""
+	case "forged":
+		// a "good" answer for the right serial, signed by (and embedding) an ordinary certificate of the same issuer that carries
+		// no extended key usage at all: issued by the CA, but not authorised to speak for it
+		body := e.ca.OCSPResponse(OCSPOpts{Status: ocsp.Good, Serial: leaf.SerialNumber, Responder: e.forger.Cert, ResponderKey: e.forger.Key, EmbedCert: e.forger.Cert})
+		e.rsp.SetFixed(path, RespScript{Kind: "bytes", Body: body})
+		return e.abs.Abstract(body, append(append([]*x509.Certificate{}, known...), e.forger.Cert)), true, ""
 	case "drop":
 		e.rsp.SetFixed(path, RespScript{Kind: "drop"})
 		return "E", true, ""
@@ -86,6 +93,7 @@ func runC02(r *Run) {
 	defer e.rsp.Close()
 	e.ca = NewCA(CAOpts{CN: "C02 CA", EC: true})
 	e.sib = NewCA(CAOpts{CN: "C02 CA", EC: true, SKI: e.ca.Cert.SubjectKeyId})
+	e.forger = NewCA(CAOpts{CN: "C02 ordinary certificate", EC: true, Parent: e.ca, NotCA: true})
 	for _, strict := range []bool{false, true} {
 		for _, cd := range []string{"", "1h"} {
 			e.vals[fmt.Sprintf("%v/%s", strict, cd)] = c02Validator(strict, cd)
@@ -212,7 +220,7 @@ func (e *c02Env) runCase(idx int, c c02Case) {
 		chains = [][]*x509.Certificate{{leaf.Cert, e.ca.Cert}, {leaf.Cert, e.sib.Cert}}
 	}
 	known := []*x509.Certificate{e.ca.Cert, e.sib.Cert}
-	pool := []*x509.Certificate{e.ca.Cert, e.sib.Cert, leaf.Cert}
+	pool := []*x509.Certificate{e.ca.Cert, e.sib.Cert, leaf.Cert, e.forger.Cert}
 	firstAuth := ""  // status of the first authentic answer in contact order, "" if none
 	anyHTTP := false // some URL passes the filter
 	for i := range srvs {
